@@ -42,13 +42,19 @@ pub fn received_count_native(window: u16, n: u16) -> u32 {
         assert!(s.incoming.len() <= window as usize + 1, "{} empty datagrams queued after {} arrivals with a receive window of {} bytes: the queue grows without bound", s.incoming.len(), i + 1, window);
         assert!(s.recv_buffered <= window as usize);
     }
-    // payload-carrying datagrams are still bounded by bytes, oldest dropped first
-    if window >= 2 {
-        for _ in 0..4 {
-            assert!(s.received(dg((window / 2).min(255) as u8, true), &w).is_ok());
-            assert!(s.recv_buffered <= window as usize && s.incoming.len() <= window as usize + 1);
+    // payload-carrying datagrams of mixed sizes are bounded by bytes, oldest dropped first, and the byte count is
+    // exactly what is queued
+    if window >= 20 {
+        let small = (window / 10).min(25) as u8;
+        let big = (window - window / 20).min(255) as u8;
+        for len in [small, small, small, small, small, small, small, small, small, small, big, small, big] {
+            assert!(s.received(dg(len, true), &w).is_ok());
+            let queued: usize = s.incoming.iter().map(|d| d.data.len()).sum();
+            assert!(s.recv_buffered == queued, "{} bytes accounted, {} bytes queued", s.recv_buffered, queued);
+            assert!(s.recv_buffered <= window as usize, "{} bytes buffered with a receive window of {}", s.recv_buffered, window);
+            assert!(s.incoming.len() <= window as usize + 1);
+            assert!(s.incoming.back().map(|d| d.data.len()) == Some(len as usize), "the newest datagram must be kept");
         }
-        assert!(s.incoming.back().map(|d| d.data.len()) == Some((window / 2).min(255) as usize));
     }
     1
 }
